@@ -17,7 +17,7 @@ pub mod wire;
 use std::{collections::BTreeMap, sync::mpsc, time::Duration};
 
 use serde::{Deserialize, Serialize};
-use simcore::{Engine, Outcome, Rng, Tier, TraceHash, engine::intern};
+use simcore::{Engine, Outcome, Rng, Tier, TraceHash};
 
 use crate::meter::{Cost, HandlerRun};
 
@@ -423,6 +423,19 @@ struct Driver<'a> {
     probes: u64,
     /// handlers already reported by the work oracle in this case (not measured again)
     flagged: std::collections::BTreeSet<&'static str>,
+}
+
+/// Counter names are built from handler and field names; simcore's interner takes a process-wide mutex on every
+/// call, which eight workers bumping a dozen counters per probe turn into a convoy. Reads go through a
+/// read-write lock here, the interner is only consulted on a miss.
+fn intern(s: &str) -> &'static str {
+    static TABLE: std::sync::RwLock<BTreeMap<String, &'static str>> = std::sync::RwLock::new(BTreeMap::new());
+    if let Some(v) = TABLE.read().unwrap().get(s) {
+        return v;
+    }
+    let v = simcore::engine::intern(s);
+    TABLE.write().unwrap().insert(s.to_string(), v);
+    v
 }
 
 /// per handler: cost at the lowest ladder step
